@@ -871,9 +871,21 @@ func checkSelection(a *Analyzer, r *Results, id, rule string, pr []string, leade
 	why := "no recognised maximum-selection idiom"
 	// collect: sort.Slice calls with comparator closures, in fn and its static callees (one level)
 	fns := []*ssa.Function{fn}
-	for _, g := range a.calleesOf(fn) {
-		if funcPkgPath(g) == funcPkgPath(fn) {
-			fns = append(fns, g)
+	{
+		seenF := map[*ssa.Function]bool{fn: true}
+		level := []*ssa.Function{fn}
+		for depth := 0; depth < 3; depth++ {
+			var next []*ssa.Function
+			for _, h := range level {
+				for _, g := range a.calleesOf(h) {
+					if funcPkgPath(g) == funcPkgPath(fn) && !seenF[g] && g.Parent() == nil {
+						seenF[g] = true
+						fns = append(fns, g)
+						next = append(next, g)
+					}
+				}
+			}
+			level = next
 		}
 	}
 	desc, asc := false, false
@@ -936,7 +948,16 @@ func checkSelection(a *Analyzer, r *Results, id, rule string, pr []string, leade
 		}
 	}
 	// which element is taken
-	rets, _ := a.Returns(id, nil)
+	var rets []*Effect
+	for _, g := range fns {
+		// (the element may be picked in the helper that sorts, or in a selector between it and the anchored function)
+		rs, _ := a.Returns(funcID(g), nil)
+		for _, e := range rs {
+			if e.Instr.Parent() == g {
+				rets = append(rets, e)
+			}
+		}
+	}
 	takesFirst, takesLast := false, false
 	for _, e := range rets {
 		for _, t := range e.Args {
